@@ -176,6 +176,18 @@ type Act struct {
 	ordinals map[ssa.Instruction]int
 	modWhole map[string]bool
 	modObjs  map[string][]string
+	rebinds  []rebind
+	curBlk   *ssa.BasicBlock
+	curIdx   int
+}
+
+// rebind: from a program point on, an SSA value denotes a new mathematical value (in-place update
+// of a slice's elements through a callee, e.g. sort.Stable)
+type rebind struct {
+	root ssa.Value
+	val  Val
+	blk  *ssa.BasicBlock
+	idx  int
 }
 
 type pendingAnchor struct {
@@ -267,7 +279,9 @@ func (a *Act) lookupLocal(name string, at *ssa.BasicBlock, atIdx int, phiOv map[
 			if d.blk != b {
 				continue
 			}
-			if _, isAlloc := d.v.(*ssa.Alloc); !isAlloc {
+			_, isAlloc := d.v.(*ssa.Alloc)
+			_, isFV := d.v.(*ssa.FreeVar)
+			if !isAlloc && !isFV {
 				continue
 			}
 			if b == at && d.idx >= atIdx {
@@ -344,6 +358,12 @@ func (a *Act) val(v ssa.Value) Val {
 		return Val{T: "ref_nil", S: "Ref", G: x.Type(), L: &LVal{Kind: "global", Heap: hv, ElemS: s, ElemG: pt.Elem()}}
 	case *ssa.Builtin:
 		return Val{T: "0", S: "Int", G: x.Type()}
+	}
+	for i := len(a.rebinds) - 1; i >= 0; i-- {
+		rb := a.rebinds[i]
+		if rb.root == v && a.curBlk != nil && (rb.blk == a.curBlk && rb.idx < a.curIdx || rb.blk != a.curBlk && rb.blk.Dominates(a.curBlk)) {
+			return rb.val
+		}
 	}
 	if r, ok := a.vals[v]; ok {
 		return r
@@ -485,7 +505,13 @@ func (a *Act) run(reach string, st State, args []Val) {
 		if _, ok := a.vals[fv]; !ok {
 			s := g.w.sortOf(fv.Type())
 			a.vals[fv] = Val{T: g.fresh("fv_"+fv.Name(), s), S: s, G: fv.Type()}
+			if s == "Ref" {
+				g.fact("(> " + a.vals[fv].T + " 0)")
+				g.refs = append(g.refs, a.vals[fv].T)
+			}
 		}
+		// captured variables are visible to contracts under their source name (read through the cell)
+		a.names[fv.Name()] = append(a.names[fv.Name()], nameDef{v: fv, blk: a.fn.Blocks[0], idx: -1, addr: true, isPhi: true})
 	}
 	if len(a.fn.Blocks) == 0 {
 		g.problem("%s: no body", a.key)
@@ -799,6 +825,14 @@ func (a *Act) loopMods(li *loopInfo) []string {
 	for b := range li.body {
 		for _, ins := range b.Instrs {
 			a.g.instrMods(a, ins, set, 0)
+		}
+	}
+	if a.spec != nil {
+		// ghost updates anchored anywhere in the function may execute inside this loop
+		for _, an := range a.spec.Anchors {
+			for _, gu := range an.Ghost {
+				a.g.modTargets(a, gu.Target, set)
+			}
 		}
 	}
 	for b := range li.body {
